@@ -381,7 +381,7 @@ func Run(r *fw.Run) {
 	}
 	r.Bounds["nodes"] = total
 	onCrash := func(kind, output string, cs Case) (fw.Failure, any) {
-		return fw.Failure{Class: kind + " of the analysis process: " + topFrame(output), Detail: cs.Desc + "\n" + tail(output, 1500)},
+		return fw.Failure{Class: kind + " of the analysis process: " + topFrame(output), Detail: cs.Desc + "\n" + head(output, 2500)},
 			map[string]any{"case": cs.Desc, "directory_content": render(cs, true)}
 	}
 	fw.ExploreIsolated(r, "single-mutation", fw.Full, 120*time.Second, func(c *fw.Ctx) Case {
@@ -425,9 +425,9 @@ func Run(r *fw.Run) {
 	}, eval, onCrash)
 }
 
-func tail(s string, n int) string {
+func head(s string, n int) string {
 	if len(s) > n {
-		return s[len(s)-n:]
+		return s[:n]
 	}
 	return s
 }
